@@ -2,7 +2,7 @@
    without reference point return for every k <= n. *)
 From Coq Require Import List ZArith Lia Bool Arith Permutation Sorted.
 From SharkV Require Import ListAux C13Model C13Proofs C13ProofsFast C13ProofsContrib C13Wfg C13WfgProofs C13Disp C13DispProofs.
-From SharkV Require Import C13Dc C13DcAuxProofs C13DcProofs C13ContribMd C13ContribMdProofs C13Contrib3d C13Contrib3dProofs C13ContribNoref.
+From SharkV Require Import C13Dc C13DcAuxProofs C13DcProofs C13ContribMd C13ContribMdProofs C13Contrib3d C13Contrib3dInvProofs C13Contrib3dProofs C13ContribNoref.
 Import ListNotations.
 Local Open Scope Z_scope.
 
@@ -401,42 +401,283 @@ Lemma noref2d_entries largest S k e :
   In e (contrib2d_ref (ref2d_of (sort_lex (indexed S))) S).
 Proof.
   unfold noref2d, contrib2d_ref, contrib2d_noref, append_extremes2d. cbv zeta.
-  set (front := sort_lex (indexed S)).
-  destruct front as [|[[x0 y0] i0] t] eqn:Ef.
+  destruct (sort_lex (indexed S)) as [|[[x0 y0] i0] t] eqn:Ef.
   { cbn. destruct (_ <=? _)%nat; intros []. }
-  cbn [ref2d_of]. set (xl := fst (fst (last (((x0, y0), i0) :: t) ((x0, y0), i0)))).
-  set (ref2 := fold_left (fun m e => Z.max m (snd (fst e))) (((x0, y0), i0) :: t) y0).
+  destruct t as [|e1 t1].
+  { (* a single point *)
+    cbn. destruct (k <=? 0)%nat; [intros []|]. intros [<-|[]] _. left. f_equal. lia. }
+  remember (e1 :: t1) as T eqn:ET.
+  assert (HTne : T <> []) by (rewrite ET; discriminate).
+  cbn [ref2d_of]. set (xl := fst (fst (last (((x0, y0), i0) :: T) ((x0, y0), i0)))).
+  set (ref2 := fold_left (fun m e => Z.max m (snd (fst e))) (((x0, y0), i0) :: T) y0).
   rewrite contribs_sentinel. cbn [contribs'].
-  (* the selected part is a part of the interior contributions *)
-  assert (Hsel : forall sel, (forall e, In e sel -> In e (contribs y0 t)) ->
-             forall e, In e sel -> In e (contribs' xl y0 t)).
-  { intros sel Hs e' He'. specialize (Hs e' He'). destruct (@exists_last _ t) as [t' [[[xl' yl'] il'] Et]].
-    { intros ->. destruct Hs. }
-    assert (Exl : xl = xl').
-    { unfold xl. rewrite Et. rewrite app_comm_cons, last_last. reflexivity. }
-    rewrite Et in Hs |- *. rewrite contribs_last_irrelevant in Hs. rewrite contribs'_snoc. apply in_or_app. left.
-    exact Hs. }
+  destruct (@exists_last _ T HTne) as [T' [[[xl' yl'] il'] ETl]].
+  assert (Exl : xl = xl') by (unfold xl; rewrite ETl, app_comm_cons, last_last; reflexivity).
+  assert (Hint : forall e', In e' (contribs y0 T) -> In e' (contribs' xl y0 T)).
+  { intros e' Hs. rewrite ETl in Hs |- *. rewrite contribs_last_irrelevant in Hs. rewrite contribs'_snoc.
+    apply in_or_app. left. exact Hs. }
+  assert (Hlast : In (0, snd (last (((x0, y0), i0) :: T) ((x0, y0), i0))) (contribs' xl y0 T)).
+  { rewrite ETl. rewrite app_comm_cons, last_last. cbn [snd]. rewrite contribs'_snoc. apply in_or_app. right. left.
+    rewrite Exl. f_equal. lia. }
+  assert (Hfirst : (nextx xl T - x0) * (ref2 - y0) = (match T with [] => 0 | ((x1, _), _) :: _ => x1 - x0 end) * (ref2 - y0)).
+  { rewrite ET. destruct e1 as [[x1 y1] i1]. reflexivity. }
   match goal with |- In _ (if (_ <=? length ?r)%nat then _ else _) -> _ => set (res := r) end.
-  assert (Hres : forall e, In e res -> In e (contribs' xl y0 t)).
-  { apply Hsel. intros e'. unfold res. destruct (_ =? 0)%nat; [intros []|]. destruct largest.
+  assert (Hres : forall e', In e' res -> In e' (contribs' xl y0 T)).
+  { intros e' He'. apply Hint. revert He'. unfold res. destruct (_ =? 0)%nat; [intros []|]. destruct largest.
     - unfold largest_kv. intros H. apply in_rev in H. apply In_skipn in H.
       eapply Permutation_in; [apply sort_kv_perm|exact H].
     - unfold smallest_kv. intros H. apply In_firstn in H. eapply Permutation_in; [apply sort_kv_perm|exact H]. }
-  intros Hin Hk. destruct (k <=? length res)%nat; [right; exact (Hres _ Hin)|].
-  assert (Hlast : t <> [] -> In (0, snd (last (((x0, y0), i0) :: t) ((x0, y0), i0))) (contribs' xl y0 t)).
-  { intros Hne. destruct (@exists_last _ t Hne) as [t' [[[xl' yl'] il'] Et]].
-    assert (Exl : xl = xl') by (unfold xl; rewrite Et, app_comm_cons, last_last; reflexivity).
-    rewrite Et. rewrite app_comm_cons, last_last. cbn [snd]. rewrite contribs'_snoc. apply in_or_app. right. left.
-    rewrite Exl. f_equal. lia. }
-  destruct t as [|[[x1 y1] i1] t1] eqn:Et.
-  - apply in_app_or in Hin. destruct Hin as [Hin|[<-|[]]]; [right; exact (Hres _ Hin)|].
-    left. cbn [nextx]. unfold xl. cbn. f_equal. lia.
-  - rewrite <- Et in *. fold xl. fold ref2.
-    match type of Hin with context [if ?c then _ else _] => destruct c end.
-    + apply in_app_or in Hin. destruct Hin as [Hin|[<-|[]]].
-      * apply in_app_or in Hin. destruct Hin as [Hin|[<-|[]]]; [right; exact (Hres _ Hin)|].
-        left. rewrite Et. cbn [nextx]. reflexivity.
-      * right. refine (Hlast _). rewrite Et. discriminate.
-    + apply in_app_or in Hin. destruct Hin as [Hin|[<-|[]]]; [right; exact (Hres _ Hin)|].
-      left. rewrite Et. cbn [nextx]. reflexivity.
+  intros Hin Hk. destruct (k <=? length res)%nat; [right; apply Hres; exact Hin|].
+  assert (Hw : forall w, w = (match T with [] => 0 | ((x1, _), _) :: _ => x1 - x0 end) ->
+            In (w * (ref2 - y0), i0) (((nextx xl T - x0) * (ref2 - y0), i0) :: contribs' xl y0 T)).
+  { intros w ->. left. now rewrite Hfirst. }
+  revert Hin. rewrite ET at 1 2. destruct e1 as [[x1 y1] i1]. rewrite <- ET.
+  match goal with |- In _ (if ?c then _ else _) -> _ => destruct c end; intros Hin.
+  - apply in_app_or in Hin. destruct Hin as [Hin|[<-|[]]].
+    + apply in_app_or in Hin. destruct Hin as [Hin|[<-|[]]]; [right; apply Hres; exact Hin|].
+      apply Hw. rewrite ET. reflexivity.
+    + right. exact Hlast.
+  - apply in_app_or in Hin. destruct Hin as [Hin|[<-|[]]]; [right; apply Hres; exact Hin|].
+    apply Hw. rewrite ET. reflexivity.
+Qed.
+
+(* the result as "selection from the interior entries, then the two extreme entries" *)
+Definition interior2d (S : list point) : list kv := contrib2d_noref S.
+Definition extremes2d (S : list point) : list kv :=
+  match sort_lex (indexed S) with
+  | [] => []
+  | ((x0, y0), i0) :: t =>
+    let front := ((x0, y0), i0) :: t in
+    let ref2 := fold_left (fun m e => Z.max m (snd (fst e))) front y0 in
+    match t with
+    | [] => [(0 * (ref2 - y0), i0)]
+    | ((x1, _), _) :: _ => [((x1 - x0) * (ref2 - y0), i0); (0, snd (last front ((x0, y0), i0)))]
+    end
+  end.
+
+Lemma contribs_length : forall L prev, length (contribs prev L) = (length L - 1)%nat.
+Proof.
+  induction L as [|[[x y] i] t IH]; intros prev; [reflexivity|]. cbn [contribs].
+  destruct t as [|[[x' y'] j] t']; [reflexivity|]. cbn [length]. rewrite IH. cbn [length]. lia.
+Qed.
+
+Lemma noref2d_sel_append largest S k :
+  noref2d largest S k =
+  select_rest largest (sort_kv (interior2d S)) k ++
+  firstn (k - length (select_rest largest (sort_kv (interior2d S)) k)) (extremes2d S).
+Proof.
+  unfold noref2d, interior2d, extremes2d, contrib2d_noref, append_extremes2d. cbv zeta.
+  destruct (sort_lex (indexed S)) as [|[[x0 y0] i0] t] eqn:Ef.
+  { cbn. destruct largest; cbn; rewrite ?firstn_nil; destruct (k <=? 0)%nat; cbn; now rewrite ?firstn_nil. }
+  set (I := contribs y0 t). unfold kv, ipoint in *.
+  assert (HI : length I = (length t - 1)%nat) by apply contribs_length.
+  assert (Hs : length (sort_kv I) = length I) by (apply Permutation_length, sort_kv_perm).
+  set (cand := (length (((x0, y0), i0) :: t) - 2)%nat).
+  assert (Hc : cand = length I).
+  { unfold cand. cbn [length]. lia. }
+  match goal with |- context [if (cand =? 0)%nat then ?a else ?b] =>
+    assert (Esel : (if (cand =? 0)%nat then a else b) = select_rest largest (sort_kv I) k) end.
+  { unfold select_rest. destruct (Nat.eqb_spec cand 0) as [E0|Ne].
+    - assert (H : I = []) by (apply length_zero_iff_nil; lia). rewrite H. cbn. destruct largest; cbn; now rewrite ?firstn_nil, ?skipn_nil.
+    - destruct largest.
+      + unfold largest_kv. rewrite Hs. f_equal. f_equal. unfold kv in *. lia.
+      + unfold smallest_kv. rewrite Hc. unfold kv in *.
+        destruct (Nat.le_ge_cases k (length I)); [now rewrite Nat.min_l by lia|].
+        rewrite Nat.min_r by lia. rewrite !firstn_all2; auto; unfold kv in *; lia. }
+  rewrite Esel. set (sel := select_rest largest (sort_kv I) k). unfold kv in *.
+  match goal with |- (if ?c then _ else _) = _ => destruct c eqn:Ec end.
+  - apply Nat.leb_le in Ec. replace (k - length sel)%nat with 0%nat by lia. cbn [firstn]. now rewrite app_nil_r.
+  - apply Nat.leb_gt in Ec. destruct t as [|[[x1 y1] i1] t1].
+    + destruct (k - length sel)%nat eqn:Ek; [lia|]. cbn [firstn]. now rewrite firstn_nil.
+    + match goal with |- (if ?c then _ else _) = _ => destruct c eqn:Ec2 end.
+      * apply Nat.ltb_lt in Ec2. rewrite app_length in Ec2. cbn [length] in Ec2.
+        destruct (k - length sel)%nat as [|[|m]] eqn:Ek; try lia. cbn [firstn]. rewrite firstn_nil, <- app_assoc. reflexivity.
+      * apply Nat.ltb_ge in Ec2. rewrite app_length in Ec2. cbn [length] in Ec2.
+        destruct (k - length sel)%nat as [|[|m]] eqn:Ek; try lia. reflexivity.
+Qed.
+
+(* ---- the implicit reference point of the 2-D code is the component-wise maximum *)
+Lemma nth_pmax : forall p q j, length p = length q -> (j < length p)%nat ->
+  nth j (pmax p q) 0 = Z.max (nth j p 0) (nth j q 0).
+Proof.
+  induction p as [|x p IH]; intros [|y q] [|j] HL Hj; cbn in *; try lia; auto. apply IH; lia.
+Qed.
+
+Lemma pmax_all_attained d j : (j < d)%nat -> forall S p, length p = d -> same_dim d S ->
+  nth j (pmax_all p S) 0 = nth j p 0 \/ exists q, In q S /\ nth j (pmax_all p S) 0 = nth j q 0.
+Proof.
+  intros Hj. induction S as [|q S IH]; intros p Hp Hd; cbn [pmax_all]; [now left|].
+  assert (Hq : length q = d) by (apply Hd; now left).
+  destruct (IH (pmax p q) ltac:(rewrite pmax_length; lia) (fun x Hx => Hd x (or_intror Hx))) as [E|[r [Hr E]]].
+  - rewrite E, nth_pmax by lia. destruct (Z.max_spec (nth j p 0) (nth j q 0)) as [[_ ->]|[_ ->]].
+    + right. exists q. split; [now left|reflexivity].
+    + now left.
+  - right. exists r. split; auto. now right.
+Qed.
+
+Lemma implicit_ref_max d S j : S <> [] -> same_dim d S -> (j < d)%nat ->
+  (forall q, In q S -> nth j q 0 <= nth j (implicit_ref S) 0) /\
+  (exists q, In q S /\ nth j q 0 = nth j (implicit_ref S) 0).
+Proof.
+  intros Hne Hd Hj. destruct (implicit_ref_spec d S Hne Hd) as [Hl HB]. split.
+  - intros q Hq. specialize (HB q Hq). apply leq_all_nth in HB. destruct HB as [HL HB]. apply HB. rewrite (Hd q Hq). auto.
+  - destruct S as [|p t]; [congruence|]. cbn [implicit_ref].
+    destruct (pmax_all_attained d j Hj t p (Hd p (or_introl eq_refl)) (fun x Hx => Hd x (or_intror Hx))) as [E|[r [Hr E]]].
+    + exists p. split; [now left|auto].
+    + exists r. split; [now right|auto].
+Qed.
+
+Lemma fold_max_spec (front : list ipoint) : forall y0,
+  let m := fold_left (fun m e => Z.max m (snd (fst e))) front y0 in
+  y0 <= m /\ (forall e, In e front -> snd (fst e) <= m) /\ (m = y0 \/ exists e, In e front /\ m = snd (fst e)).
+Proof.
+  induction front as [|e t IH]; intros y0; cbn [fold_left].
+  - split; [lia|]. split; [intros e []|now left].
+  - destruct (IH (Z.max y0 (snd (fst e)))) as [A [B C]]. cbv zeta in *. split; [lia|]. split.
+    + intros e' [<-|He']; [lia|auto].
+    + destruct C as [C|[e' [He' C]]].
+      * destruct (Z.max_spec y0 (snd (fst e))) as [[_ E]|[_ E]]; rewrite E in *.
+        -- right. exists e. split; [now left|exact C].
+        -- now left.
+      * right. exists e'. split; auto. now right.
+Qed.
+
+Lemma In_indexed S x y i : same_dim 2 S -> In ((x, y), i) (indexed S) ->
+  (i < length S)%nat /\ x = nth 0 (nth i S []) 0 /\ y = nth 1 (nth i S []) 0.
+Proof.
+  intros Hd Hin. unfold indexed in Hin. destruct (In_nth _ _ ((0, 0), 0%nat) Hin) as [m [Hm Em]].
+  rewrite combine_length, map_length, seq_length, Nat.min_id in Hm.
+  rewrite combine_nth in Em by now rewrite map_length, seq_length. rewrite seq_nth in Em by auto.
+  rewrite (nth_map_lt to_pair S (0, 0) [] m Hm) in Em. cbn [Nat.add] in Em.
+  pose proof (Hd _ (nth_In S [] Hm)) as Hl. destruct (nth m S []) as [|a [|b [|? ?]]] eqn:En; try discriminate.
+  cbn in Em. inversion Em; subst. rewrite En. cbn. auto.
+Qed.
+
+Lemma indexed_length S : length (indexed S) = length S.
+Proof. transitivity (length (map snd (indexed S))); [symmetry; apply map_length|]. now rewrite indexed_snd, seq_length. Qed.
+
+Lemma ref2d_is_implicit S : S <> [] -> same_dim 2 S -> ref2d_of (sort_lex (indexed S)) = implicit_ref S.
+Proof.
+  intros Hne Hd. destruct (implicit_ref_spec 2 S Hne Hd) as [Hl _].
+  pose proof (sort_lex_perm (indexed S)) as HP. pose proof (sort_lex_sorted (indexed S)) as HS.
+  set (front := sort_lex (indexed S)) in *.
+  assert (Hlen : length front = length S).
+  { rewrite (Permutation_length HP). apply indexed_length. }
+  destruct front as [|[[x0 y0] i0] t] eqn:Ef; [destruct S; [congruence|cbn in Hlen; lia]|].
+  rewrite <- Ef in *.
+  assert (Hfront : forall x y i, In ((x, y), i) front -> (i < length S)%nat /\ x = nth 0 (nth i S []) 0 /\ y = nth 1 (nth i S []) 0).
+  { intros x y i Hin. apply In_indexed; auto. eapply Permutation_in; [exact HP|exact Hin]. }
+  assert (Hfront' : forall q, In q S -> exists i, In ((nth 0 q 0, nth 1 q 0), i) front).
+  { intros q Hq. pose (dp := ([] : point)). destruct (In_nth S q dp Hq) as [m [Hm Em]]. exists m.
+    eapply Permutation_in; [symmetry; exact HP|]. unfold indexed.
+    assert (E : ((nth 0 q 0, nth 1 q 0), m) = nth m (combine (map to_pair S) (seq 0 (length S))) ((0, 0), 0%nat)).
+    { rewrite combine_nth by now rewrite map_length, seq_length. rewrite seq_nth by auto.
+      rewrite (nth_map_lt to_pair S (0, 0) dp m Hm). pose proof (Hd q Hq) as Hlq. rewrite Em.
+      destruct q as [|a [|b [|? ?]]]; try discriminate Hlq. reflexivity. }
+    rewrite E. apply nth_In. fold (indexed S). rewrite indexed_length. lia. }
+  destruct (implicit_ref_max 2 S 0 Hne Hd ltac:(lia)) as [U0 [q0 [Hq0 A0]]].
+  destruct (implicit_ref_max 2 S 1 Hne Hd ltac:(lia)) as [U1 [q1 [Hq1 A1]]].
+  destruct (implicit_ref S) as [|m0 [|m1 [|? ?]]] eqn:Ei; try discriminate. cbn [nth] in *.
+  rewrite Ef at 1. cbn [ref2d_of]. rewrite <- Ef. f_equal; [|f_equal].
+  - (* the last sorted point has the largest first objective *)
+    assert (HlastIn : In (last front ((x0, y0), i0)) front) by (apply last_In; rewrite Ef; discriminate).
+    destruct (last front ((x0, y0), i0)) as [[xl yl] il] eqn:El. cbn [fst].
+    destruct (Hfront _ _ _ HlastIn) as (Hi & Ex & _).
+    apply Z.le_antisymm.
+    + rewrite Ex. apply U0. apply nth_In. auto.
+    + destruct (Hfront' q0 Hq0) as [i Hin]. rewrite <- A0.
+      destruct (SS_last lexR front ((x0, y0), i0) _ HS Hin) as [E|R].
+      * rewrite El in E. inversion E. lia.
+      * rewrite El in R. unfold lexR, lex_le in R. cbn [fst snd] in R. lia.
+  - destruct (fold_max_spec front y0) as [B0 [B1 B2]]. cbv zeta in *.
+    set (m := fold_left (fun m e => Z.max m (snd (fst e))) front y0) in *.
+    apply Z.le_antisymm.
+    + destruct B2 as [B2|[[[x y] i] [He B2]]].
+      * rewrite B2. assert (Hin0 : In ((x0, y0), i0) front) by (rewrite Ef; now left).
+        destruct (Hfront _ _ _ Hin0) as (Hi & _ & Ey). rewrite Ey. apply U1. apply nth_In. auto.
+      * rewrite B2. cbn [fst snd]. destruct (Hfront _ _ _ He) as (Hi & _ & Ey). rewrite Ey. apply U1. apply nth_In. auto.
+    + destruct (Hfront' q1 Hq1) as [i Hin]. rewrite <- A1. apply (B1 _ Hin).
+Qed.
+
+Lemma noref2d_indices S : S <> [] ->
+  Permutation (map snd (sort_kv (interior2d S) ++ extremes2d S)) (seq 0 (length S)).
+Proof.
+  intros Hne. rewrite map_app. rewrite (Permutation_map snd (sort_kv_perm (interior2d S))). rewrite <- map_app.
+  rewrite <- indexed_snd. rewrite <- (Permutation_map snd (sort_lex_perm (indexed S))).
+  unfold interior2d, extremes2d, contrib2d_noref.
+  destruct (sort_lex (indexed S)) as [|[[x0 y0] i0] t] eqn:Ef.
+  { exfalso. pose proof (Permutation_length (sort_lex_perm (indexed S))) as HL. rewrite Ef, indexed_length in HL.
+    destruct S; [congruence|discriminate]. }
+  destruct t as [|e1 t1]; [reflexivity|].
+  assert (Hne' : e1 :: t1 <> []) by discriminate.
+  destruct (@exists_last _ (e1 :: t1) Hne') as [T' [[[xl yl] il] ET]].
+  assert (Ext : forall ref2, match e1 :: t1 with
+            | [] => [(0 * (ref2 - y0), i0)]
+            | ((x1, _), _) :: _ => [((x1 - x0) * (ref2 - y0), i0); (0, snd (last (((x0, y0), i0) :: e1 :: t1) ((x0, y0), i0)))]
+            end = [((fst (fst e1) - x0) * (ref2 - y0), i0); (0, il)]).
+  { intros ref2. destruct e1 as [[x1 y1] i1]. cbn [fst]. f_equal. f_equal. f_equal.
+    rewrite ET. rewrite app_comm_cons, last_last. reflexivity. }
+  cbv zeta. rewrite Ext. rewrite ET. rewrite contribs_last_irrelevant. rewrite map_app, contribs'_snd.
+  cbn [map snd]. rewrite map_app. cbn [map snd].
+  rewrite <- Permutation_middle. constructor. apply Permutation_app_head. reflexivity.
+Qed.
+
+Theorem noref2d_correct largest S k :
+  S <> [] -> same_dim 2 S -> mutually_nondominated S -> (k <= length S)%nat ->
+  noref_ok (implicit_ref S) S k (noref2d largest S k).
+Proof.
+  intros Hne Hd HN Hk. destruct (implicit_ref_spec 2 S Hne Hd) as [Hl HB].
+  pose proof (noref2d_indices S Hne) as HPi.
+  assert (ND : NoDup (map snd (sort_kv (interior2d S) ++ extremes2d S))).
+  { apply (Permutation_NoDup (l := seq 0 (length S))); [symmetry; exact HPi|apply seq_NoDup]. }
+  assert (HL : (length (sort_kv (interior2d S)) + length (extremes2d S) = length S)%nat).
+  { pose proof (Permutation_length HPi) as E. rewrite map_length, app_length, seq_length in E. exact E. }
+  assert (Hk' : (k <= length (sort_kv (interior2d S)) + length (extremes2d S))%nat) by (rewrite HL; exact Hk).
+  destruct (sel_append_props largest (sort_kv (interior2d S)) (extremes2d S) k ND Hk') as [R1 [R2 _]].
+  cbv zeta in R1, R2. rewrite <- noref2d_sel_append in R1, R2.
+  split; [exact R1|]. split; [exact R2|].
+  intros v i Hin. pose proof (noref2d_entries largest S k (v, i) Hin Hk) as Hr.
+  rewrite (ref2d_is_implicit S Hne Hd) in Hr.
+  apply (contrib2d_ref_value (implicit_ref S) S Hl HB HN). exact Hr.
+Qed.
+
+(* ---------------------------------------------------------------------------------------- *)
+(* the front end without reference point *)
+Theorem noref_front_correct hoy largest S k d :
+  S <> [] -> same_dim d S -> (2 <= d)%nat ->
+  (d <> 4%nat \/ forall ref S, length ref = 4%nat -> below_ref ref S -> hoy ref S = hv_spec ref S) ->
+  (d <= 3 -> mutually_nondominated S)%nat -> (k <= length S)%nat ->
+  noref_ok (implicit_ref S) S k (noref_front hoy largest S k).
+Proof.
+  intros Hne Hd Hd2 Hh HN Hk. unfold noref_front. destruct S as [|p t] eqn:ES; [congruence|]. rewrite <- ES in *.
+  assert (Hp : length p = d) by (apply Hd; rewrite ES; now left). rewrite Hp.
+  destruct d as [|[|[|[|m]]]]; try lia.
+  - apply noref2d_correct; auto.
+  - apply noref3d_correct; auto.
+  - apply (norefmd_correct hoy largest S k (Datatypes.S (Datatypes.S (Datatypes.S (Datatypes.S m))))); auto.
+Qed.
+
+Example noref_example :
+  let S := [[1; 5; 2]; [2; 3; 3]; [2; 3; 3]; [3; 1; 5]; [1; 4; 5]; [2; 2; 4]] in
+  let S2 := [[1; 5]; [2; 3]; [4; 2]; [2; 3]; [5; 1]] in
+  same_dim 3 S /\ mutually_nondominated S /\ implicit_ref S = [3; 5; 5] /\
+  noref_front (fun _ _ => 0) false S 5 = [(0, 4%nat); (0, 1%nat); (0, 2%nat); (1, 5%nat); (0, 0%nat)] /\
+  noref_front (fun _ _ => 0) true S 2 = [(1, 5%nat); (0, 2%nat)] /\
+  same_dim 2 S2 /\ mutually_nondominated S2 /\ implicit_ref S2 = [5; 5] /\
+  noref_front (fun _ _ => 0) false S2 5 = [(0, 3%nat); (0, 1%nat); (1, 2%nat); (0, 0%nat); (0, 4%nat)].
+Proof.
+  cbv zeta.
+  assert (ND : forall S0 : list point, (forall p q, In p S0 -> In q S0 -> length p = length q) ->
+            forallb (fun p => forallb (fun q => negb (domb p q)) S0) S0 = true -> mutually_nondominated S0)
+    by apply mutually_nondominated_dec_check.
+  split; [intros p Hp; cbn [In] in Hp; repeat (destruct Hp as [<-|Hp]; [reflexivity|]); destruct Hp|].
+  split.
+  { apply ND; [|reflexivity]. intros p q Hp Hq. cbn [In] in Hp, Hq.
+    repeat (destruct Hp as [<-|Hp]; [repeat (destruct Hq as [<-|Hq]; [reflexivity|]); destruct Hq|]). destruct Hp. }
+  split; [reflexivity|]. split; [vm_compute; reflexivity|]. split; [vm_compute; reflexivity|].
+  split; [intros p Hp; cbn [In] in Hp; repeat (destruct Hp as [<-|Hp]; [reflexivity|]); destruct Hp|].
+  split.
+  { apply ND; [|reflexivity]. intros p q Hp Hq. cbn [In] in Hp, Hq.
+    repeat (destruct Hp as [<-|Hp]; [repeat (destruct Hq as [<-|Hq]; [reflexivity|]); destruct Hq|]). destruct Hp. }
+  split; [reflexivity|]. vm_compute; reflexivity.
 Qed.
